@@ -26,7 +26,7 @@ WEI = ('clustering_coef_wu', 'clustering_coef_wd', 'clustering_coef_wu_sign', 't
 
 
 def cases(tier, seed):
-    q = tier != 'thorough'
+    q = False          # the full bounds cost about a minute: quick and thorough coincide
     import random
     rnd = random.Random(seed)
     cs = []
